@@ -30,6 +30,8 @@ LeafScalars(S, n) == UNION { TyScalars(S, t) : t \in MemberTys(S, n) }
 SerdeBigArray(S, o) == o.serde /\ \E n \in Emit(S) : \E t \in MemberTys(S, n) : TyMaxArray(S, t) > 32
 NonPodField(S, o) == \E n \in Emit(S) : DerivesPod(S, n, o) /\ "bool" \in LeafScalars(S, n)
 EncaseUnsupported(S, o) == o.enc /\ \E n \in Emit(S) : HostShareable(S, n) /\ (LeafScalars(S, n) \cap {"bool", "f64", "i64", "u64"}) # {}
+(* a host-shareable struct whose members are all builtins is emitted without fields; encase's derive refuses field-less structs *)
+EmptyEncaseStruct(S, o) == o.enc /\ \E n \in Emit(S) : HostShareable(S, n) /\ Fields(S, n) = << >>
 ImplWithoutType(S) == \E i \in DOMAIN S.entries : S.entries[i].stage = "vertex" /\
                          \E j \in DOMAIN S.entries[i].params : S.entries[i].params[j].k = "struct" /\ S.entries[i].params[j].ty \notin Emit(S)
 AllIdents(S) ==
@@ -75,4 +77,5 @@ PredictedCauses(S, o) ==
   \cup (IF DuplicateParam(S) THEN {"DuplicateParam"} ELSE {})
   \cup (IF EntryConstClash(S) THEN {"EntryConstClash"} ELSE {})
   \cup (IF ConstShadowsLocal(S) THEN {"ConstShadowsLocal"} ELSE {})
+  \cup (IF EmptyEncaseStruct(S, o) THEN {"EmptyEncaseStruct"} ELSE {})
 =============================================================================
